@@ -112,9 +112,10 @@ func HC14_method() {
 	c := a.Contract
 	text := generateMethod(a)
 	vfObserve("text", text)
+	sq := skelSquash(text)
 
-	vfAssert(strings.Contains(text, "async "+c.Name+"("), "C14/method-named-after-the-handler")
-	vfAssert(strings.Contains(text, "const fullUrl = this.baseUrl + \""+a.Url+"\";"), "C14/request-sent-to-base-url-plus-endpoint-url")
+	vfAssert(skelHas(sq, "async "+c.Name+"("), "C14/method-named-after-the-handler")
+	vfAssert(skelHas(sq, "const fullUrl = this.baseUrl + \""+a.Url+"\";"), "C14/request-sent-to-base-url-plus-endpoint-url")
 
 	hasBody, hasForm := c.InputBody != nil, !c.InputForm.IsZero()
 	second := ""
@@ -126,40 +127,40 @@ func HC14_method() {
 	case a.Method == "POST" || a.Method == "PUT":
 		second = "null, "
 	}
-	vfAssert(strings.Contains(text, "await Axios."+strings.ToLower(a.Method)+"(fullUrl, "+second+"{ headers"), "C14/verb-and-body-argument")
+	vfAssert(skelHas(sq, "await Axios."+strings.ToLower(a.Method)+"(fullUrl, "+second+"{ headers"), "C14/verb-and-body-argument")
 
 	// form data: exactly the declared file, values and JSON field
 	nAppend := len(c.InputForm.ValueNames)
 	okForm := true
 	if c.InputForm.File != "" {
 		nAppend++
-		okForm = vfAnd(okForm, strings.Contains(text, fmt.Sprintf("formData.append(%q, file, file.name)", c.InputForm.File)))
+		okForm = vfAnd(okForm, skelHas(sq, fmt.Sprintf("formData.append(%q, file, file.name)", c.InputForm.File)))
 	}
 	for _, v := range c.InputForm.ValueNames {
-		okForm = vfAnd(okForm, strings.Contains(text, fmt.Sprintf("formData.append(%q, formParams[%q])", v, v)))
+		okForm = vfAnd(okForm, skelHas(sq, fmt.Sprintf("formData.append(%q, formParams[%q])", v, v)))
 	}
 	if c.InputForm.JSON.Name != "" {
 		nAppend++
-		okForm = vfAnd(okForm, strings.Contains(text, fmt.Sprintf("formData.append(%q, JSON.stringify(formValue))", c.InputForm.JSON.Name)))
+		okForm = vfAnd(okForm, skelHas(sq, fmt.Sprintf("formData.append(%q, JSON.stringify(formValue))", c.InputForm.JSON.Name)))
 	}
-	vfAssert(vfAnd(okForm, strings.Count(text, "formData.append(") == nAppend), "C14/form-data-has-exactly-the-declared-fields")
+	vfAssert(vfAnd(okForm, skelCount(sq, "formData.append(") == nAppend), "C14/form-data-has-exactly-the-declared-fields")
 
 	// query parameters converted to strings
 	if len(qs) == 0 {
-		vfAssert(!strings.Contains(text, "params: {"), "C14/no-query-object-without-query-parameters")
+		vfAssert(!skelHas(sq, "params: {"), "C14/no-query-object-without-query-parameters")
 	} else {
 		var conv []string
 		for _, q := range qs {
 			conv = append(conv, c14Conv(q))
 		}
-		vfAssert(strings.Contains(text, "params: { "+strings.Join(conv, ", ")+" }"), "C14/exactly-the-declared-query-parameters-converted-to-strings")
+		vfAssert(skelHas(sq, "params: { "+strings.Join(conv, ", ")+" }"), "C14/exactly-the-declared-query-parameters-converted-to-strings")
 	}
-	vfAssert(strings.Contains(text, "responseType: 'arraybuffer'") == c.IsReturnBlob, "C14/arraybuffer-iff-blob-route")
-	vfAssert(strings.Contains(text, "return true;") == (c.Return == nil), "C14/returns-true-iff-the-handler-returns-nothing")
+	vfAssert(skelHas(sq, "responseType: 'arraybuffer'") == c.IsReturnBlob, "C14/arraybuffer-iff-blob-route")
+	vfAssert(skelHas(sq, "return true;") == (c.Return == nil), "C14/returns-true-iff-the-handler-returns-nothing")
 	if c.IsReturnBlob {
-		vfAssert(strings.Contains(text, "blob: rep.data") && strings.Contains(text, "filename"), "C14/blob-route-returns-blob-and-file-name")
+		vfAssert(skelHas(sq, "blob: rep.data") && skelHas(sq, "filename"), "C14/blob-route-returns-blob-and-file-name")
 	} else if c.Return != nil {
-		vfAssert(strings.Contains(text, "return rep.data;"), "C14/returns-the-response-payload")
+		vfAssert(skelHas(sq, "return rep.data;"), "C14/returns-the-response-payload")
 	}
 
 	// every parameter the body uses is declared in the signature, and the JSON body and the
@@ -216,12 +217,13 @@ func HC14_file() {
 	}
 	text := GenerateAxios(api)
 	vfObserve("len", len(text))
-	vfAssert(strings.Count(text, "\tasync ") == n, "C14/one-method-per-endpoint")
+	sq := skelSquash(text)
+	vfAssert(skelCount(sq, "\tasync ") == n, "C14/one-method-per-endpoint")
 	for _, name := range []string{"BodyIn", "Out", "Int", "IdItem"} {
 		if !mentions[name] {
 			continue
 		}
-		decls := strings.Count(text, "export interface "+name+" ") + strings.Count(text, "export type "+name+" ")
+		decls := skelCount(sq, "export interface "+name+" ") + skelCount(sq, "export type "+name+" ")
 		vfAssert(decls == 1, "C14/mentioned-type-declared-exactly-once")
 	}
 }
